@@ -199,6 +199,36 @@ pub fn run_tx3c_over(src: &str, tag: &str, extra: &[String], existing: Option<&[
     res
 }
 
+/// The compiler reads the file it is given: the same program under a name that does not end in `.tx3`, beside a file
+/// of the same stem that does (another, valid program), must give the same interface as under its usual name.
+pub fn judge_other_extension(src: &str, usual: &[u8], o: &mut Outcome, detail: &Value) {
+    if !std::path::Path::new(TX3C).exists() {
+        panic!("harness: {TX3C} is missing (run ./check --build)");
+    }
+    let dir = scratch_dir();
+    let decoy = "party Payer;\nparty Payee;\ntx decoy(amount: Int) {\n    input funds {\n        from: Payer,\n        min_amount: Ada(amount) + fees,\n    }\n    output {\n        to: Payee,\n        amount: Ada(amount),\n    }\n    output {\n        to: Payer,\n        amount: funds - Ada(amount) - fees,\n    }\n}\n";
+    for ext in ["draft", "tx3.orig", "v2"] {
+        let given = dir.join(format!("x.{ext}"));
+        let sibling = dir.join("x.tx3");
+        let out_path = dir.join("x.tii");
+        let _ = std::fs::remove_file(&out_path);
+        if std::fs::write(&given, src).is_err() || std::fs::write(&sibling, decoy).is_err() {
+            return;
+        }
+        o.evals += 1;
+        let out = std::process::Command::new(TX3C).arg("build").arg(&given).arg("--emit").arg("tii").arg("-o").arg(&out_path).output();
+        let got = out.ok().filter(|x| x.status.success()).and_then(|_| std::fs::read(&out_path).ok());
+        let _ = std::fs::remove_file(&given);
+        let _ = std::fs::remove_file(&sibling);
+        let _ = std::fs::remove_file(&out_path);
+        match got {
+            Some(b) if b == usual => o.class("other-extension:same-interface"),
+            Some(_) => o.violate(Violation::new("tii|interface-of-another-file", format!("built from x.{ext} (beside a valid x.tx3 holding another program) the interface differs from the one built from the same text under a .tx3 name")).with_detail(detail.clone())),
+            None => o.violate(Violation::new("tx3c|fails-on-a-source-with-another-extension", format!("tx3c build x.{ext} failed although the same text builds under a .tx3 name")).with_detail(detail.clone())),
+        }
+    }
+}
+
 pub fn judge(src: &str, o: &mut Outcome, detail: &Value) {
     let viol = |o: &mut Outcome, sig: &str, what: String| o.violate(Violation::new(sig, what).with_detail(detail.clone()));
     let lowered = match panics::catch(|| crate::common::pipeline::lower_source(src)) {
@@ -236,6 +266,9 @@ pub fn judge(src: &str, o: &mut Outcome, detail: &Value) {
         }
     };
     o.class("tii-emitted");
+    if detail["kind"] == "corpus" {
+        judge_other_extension(src, &tii, o, detail);
+    }
     let keys = |v: &Value| -> BTreeSet<String> { v.as_object().map(|m| m.keys().cloned().collect()).unwrap_or_default() };
     let parties = keys(&doc["parties"]);
     let env = keys(&doc["environment"]["properties"]);
@@ -381,7 +414,7 @@ impl Prop for C17 {
          third parameter absent / unused / used / colliding after lower-casing; env fields used or not; with or without a policy) is written to disk and \
          compiled by the real `tx3c build --emit tii`; the file is read back: transaction set equal; embedded IR decodes to canonical(lower(P, tx)); \
          find_params(decoded) is a subset of the declared keys with identical spelling; every declared key the body uses is required under the same \
-         spelling; no two declared keys collide; built once more with a profile whose env file gives a value to every party and environment entry: the profile's keys are exactly the declared ones, with those values; a request built from exactly the declared keys passes parse_resolve_request and resolve_tx without \
+         spelling; no two declared keys collide; every corpus program also under names that do not end in .tx3, beside a decoy of the same stem that does (same interface); built once more with a profile whose env file gives a value to every party and environment entry: the profile's keys are exactly the declared ones, with those values; a request built from exactly the declared keys passes parse_resolve_request and resolve_tx without \
          MissingTxArg. The same for every distinct program of the typed generator (gen::prog) with <= 2 (thorough 3) deviations. Non-trivial = tx3c produced a TII that was compared; distinct = distinct sources."
             .into()
     }
